@@ -91,8 +91,21 @@ def _case(rep, drv, rnd, i, tier):
     for d in dyn:
         R.run_op(eng, d)
     before_bound = R.bound_count()
+    nested = None
+    if rnd.random() < 0.25:
+        # the projection runs a bounded query of its own on the same engine, with another limit:
+        # each call must restore the limit it found
+        nfam = rnd.choice(['nat', 'mixed', 'mem'])
+        nq = {'nat': ('nat', [[Sym('v'), 40]]), 'mixed': ('mixed', [[Sym('v'), 40]]),
+              'mem': ('mem', [[Sym('v'), 40], mk_list(4)])}[nfam]
+        extra = [c for c in FAMILIES[nfam] if (c[0], len(c[1])) not in {(d[0], len(d[1])) for d in prog}]
+        if extra:
+            eng.load(extra, overwrite=False)
+        nested = (rnd.choice([90, 130, 170]), nq[0], nq[1], [])
+        rep.count('nested-evaluate_bounded')
+        payload['nested'] = sxd([nested[0], nested[1]] + nested[2])
     try:
-        res, (lim0, lim1) = eng.evaluate_bounded(limit, name, args, raise_at)
+        res, (lim0, lim1) = eng.evaluate_bounded(limit, name, args, raise_at, nested)
     except RecursionError:
         rep.violation(dict(payload, kind='RecursionError escaped from evaluate_bounded'))
         return
@@ -102,6 +115,10 @@ def _case(rep, drv, rnd, i, tier):
     bad = None
     if lim0 != lim1:
         bad = 'recursion limit not restored: %d -> %d' % (lim0, lim1)
+    elif nested is not None and any(a != b for (_, (a, b)) in nested[3]):
+        bad = 'recursion limit not restored by a nested evaluate_bounded: %s' % [l for (_, l) in nested[3]]
+    elif nested is not None and any(a != limit for (_, (a, b)) in nested[3]):
+        bad = 'the outer limit was not in force inside the projection: %s' % [l for (_, l) in nested[3]]
     elif bound != before_bound:
         bad = '%d variables still bound after evaluate_bounded returned (caller still holds the query)' % (bound - before_bound)
     elif sxd(ending) not in ('done', '(exn "ConsumerError")'):
